@@ -2,6 +2,7 @@
 Model: spec/Diff.tla (semantics + relations), spec/MC_Diff.tla (bounded scenarios);
 binding: spec/TraceDiff.tla, harness/hwv_diff.c"""
 import os, random, json
+import concurrent.futures as cf
 import vlib
 
 # ---------------------------------------------------------------- model topologies (what a diff can see of them)
@@ -28,12 +29,16 @@ REAL = {
                maps={"c1": {1: (0, 0), 2: (-3, 0), 3: (2, 1)}, "c2": {1: (0, 0), 2: (1, 1), 3: (-3, 1)}}),
     "p2": dict(synth="pack:2 node:1 core:2 pu:1", depth=4, numas=[(-3, 0), (-3, 1)], lastpu=3,
                maps={"c1": {1: (0, 0), 2: (-3, 1), 3: (2, 0)}, "c2": {1: (0, 0), 2: (1, 0), 3: (-3, 0)}}),
+    # with caches (their attributes are compared by diff_build); named/annotated objects: an L3 and a Core
+    "l3": dict(synth="pack:2 [numa] l3:1 core:2 pu:1", depth=5, numas=[(-3, 0), (-3, 1)], lastpu=3,
+               maps={"c1": {1: (0, 0), 2: (-3, 0), 3: (2, 1)}, "c2": {1: (0, 0), 2: (1, 1), 3: (-3, 1)}}),
 }
 STRINGS = [
     dict(vals={"a": "alpha", "b": "beta", "c": "gamma"}, keys={"k": "Key", "j": "Other"}, ref="ref.xml", unit=4096),
     dict(vals={"a": "a&b", "b": "<x y=\"1\"> ", "c": "it's > \\ %41;&amp;"}, keys={"k": "K&<\"'>", "j": "J j"}, ref="r&<>\"' .xml", unit=(1 << 32) + 1),
     dict(vals={"a": "0", "b": " ", "c": "x" * 300}, keys={"k": "k", "j": "kk"}, ref="/a/b c", unit=1),
     dict(vals={"a": "A", "b": "a", "c": "-1"}, keys={"k": "Backend", "j": "k"}, ref="ref", unit=10 ** 12),
+    dict(vals={"a": "node", "b": "node0", "c": "nod"}, keys={"k": "Key2", "j": "Key"}, ref="x", unit=1 << 20),   # prefixes of each other
 ]
 
 
@@ -66,9 +71,9 @@ def gen_module(cfgname, flags, nvals):
             "GKeys == {\"k\", \"j\"}\nGFlags == %s\n====\n" % (tla(c), tla(set(["a", "b", "c"][:nvals])), tla(set([1, 2, 3][:nvals])), tla(set(flags))))
 
 
-def cfg(mode, maxedits, maxhand, bfs):
+def cfg(mode, maxedits, maxhand, bfs, minlen=0):
     s = ("SPECIFICATION Spec\nCONSTANTS\n  A0 <- GA0\n  Vals <- GVals\n  Mems <- GMems\n  InfoKeys <- GKeys\n  ApplyFlags <- GFlags\n"
-         "  MaxEdits = %d\n  MaxHand = %d\n  Mode = \"%s\"\nVIEW View\nCHECK_DEADLOCK FALSE\n" % (maxedits, maxhand, mode))
+         "  MaxEdits = %d\n  MaxHand = %d\n  MinLen = %d\n  Mode = \"%s\"\nVIEW View\nCHECK_DEADLOCK FALSE\n" % (maxedits, maxhand, minlen, mode))
     if bfs:
         s += "INVARIANTS ModelOK\nACTION_CONSTRAINT EmitEdge\n"
     else:
@@ -109,19 +114,22 @@ class Binding:
     def key(self, n):
         return self.s["keys"].get(n, n)
 
-    def prologue(self):
-        L = ["reset %d" % self.s["unit"], "load 1 %s" % enc(self.r["synth"])]
+    def prologue(self, with_b=True):
+        """set-up of topology 1 (unlogged edits, then one Snap event), and its copy 2 when the scenario edits it"""
+        L = ["reset %d" % self.s["unit"], "!load 1 %s" % enc(self.r["synth"])]
         for k, o in enumerate(self.c["objs"]):
             d, i = self.m[k + 1]
             if o["name"]:
-                L.append("setname 1 %d %d %s" % (d, i, enc(self.val(o["name"]))))
+                L.append("!setname 1 %d %d %s" % (d, i, enc(self.val(o["name"]))))
             if o["numa"]:
-                L.append("setmem 1 %d %d %d" % (d, i, o["mem"][0]))
+                L.append("!setmem 1 %d %d %d" % (d, i, o["mem"][0]))
             for n, v in o["infos"]:
-                L.append("addinfo 1 %d %d %s %s" % (d, i, enc(self.key(n)), enc(self.val([v]))))
+                L.append("!addinfo 1 %d %d %s %s" % (d, i, enc(self.key(n)), enc(self.val([v]))))
         for n, v in self.c["tinfos"]:
-            L.append("addinfo 1 %d 0 %s %s" % (self.r["depth"], enc(self.key(n)), enc(self.val([v]))))
-        L.append("dup 2 1")
+            L.append("!addinfo 1 %d 0 %s %s" % (self.r["depth"], enc(self.key(n)), enc(self.val([v]))))
+        L.append("snap 1")
+        if with_b:
+            L.append("dup 2 1")
         return L
 
     def entry(self, e):
@@ -165,11 +173,7 @@ class Binding:
 
     def text(self, hist, variant=0):
         """variant: bit 0 = export with a reference name, bit 1 = through a file instead of a buffer"""
-        return "\n".join(self.prologue() + [self.step(h, variant) for h in hist]) + "\n"
-
-
-def nontrivial(text):
-    return " apply " in "\n" + text.replace("\n", "\n ") or "\nbuild" in text
+        return "\n".join(self.prologue(hist[0]["a"] != "mk") + [self.step(h, variant) for h in hist] + ["free 1"]) + "\n"
 
 
 def run(ctx, replay=None):
@@ -203,38 +207,41 @@ def run(ctx, replay=None):
     hists = []          # (config name, history)
 
     def mc(cfgname, mode, maxedits, maxhand, flags, tag, nvals=3, simulate=None, depth=None):
-        out, st = ctx.tlc_mc("MC_Diff_gen", cfg(mode, maxedits, maxhand, simulate is None), tag=tag, simulate=simulate, depth=depth,
+        out, st = ctx.tlc_mc("MC_Diff_gen", cfg(mode, maxedits, maxhand, simulate is None, 0 if simulate is None else 3),
+                             tag=tag, simulate=simulate, depth=depth,
                              extra_modules=[("MC_Diff_gen.tla", gen_module(cfgname, flags, nvals))], timeout=3000,
-                             workers=8 if simulate is None else 4)
+                             workers=1)      # one worker: the emitted histories depend only on the model and the seed
         if st["error"] or (simulate is None and st["rc"] != 0):
             raise vlib.Infra("model check of MC_Diff (%s) failed (model-level, not a violation): %s\n%s" % (tag, st["error"], out[-2500:]))
-        n = 0
-        for h in vlib.tlc_printed(out, "EDGE" if simulate is None else "SIM"):
-            key = cfgname + json.dumps(h, sort_keys=True)
-            if key in seen:
-                continue
-            seen.add(key)
-            hists.append((cfgname, h))
-            n += 1
-        if n == 0:
+        hs = list(vlib.tlc_printed(out, "EDGE" if simulate is None else "SIM"))
+        if not hs:
             raise vlib.Infra("model run %s emitted no behaviour\n%s" % (tag, out[-1500:]))
-        return st
+        return cfgname, hs
 
-    seen = set()
+    jobs = []
     for cn in sorted(CONFIGS):
         # (1) exhaustive: every set of edits, full scenario
-        mc(cn, "build", 3 if thorough else 2, 0, [0, 1], "bfs_build_" + cn)
+        jobs.append((cn, "build", 3 if thorough else 2, 0, [0, 1], "bfs_build_" + cn))
         # (2) exhaustive: every hand-built list, both directions
-        mc(cn, "hand", 0, 2, [0, 1], "bfs_hand2_" + cn, nvals=3 if thorough else 2)
+        jobs.append((cn, "hand", 0, 2, [0, 1], "bfs_hand2_" + cn, 3 if thorough else 2))
         if thorough:
-            mc(cn, "hand", 0, 3, [0, 1], "bfs_hand3_" + cn, nvals=2)
+            jobs.append((cn, "hand", 0, 3, [0, 1], "bfs_hand3_" + cn, 2))
         # (3) unknown flag bits, short lists
-        mc(cn, "hand", 0, 1, [2, 3, 1 << 30], "bfs_flags_" + cn, nvals=2)
+        jobs.append((cn, "hand", 0, 1, [2, 3, 1 << 30], "bfs_flags_" + cn, 2))
         # (4) simulation: longer edit sequences and longer lists
-        num = 1500 if thorough else 200
-        mc(cn, "build", 6, 0, [0, 1], "sim_build_" + cn, simulate="num=%d" % num, depth=20)
-        mc(cn, "hand", 0, 6, [0, 1], "sim_hand_" + cn, simulate="num=%d" % num, depth=20)
+        num, deep = (4000, 8) if thorough else (200, 6)
+        jobs.append((cn, "build", deep, 0, [0, 1], "sim_build_" + cn, 3, "num=%d" % num, 24))
+        jobs.append((cn, "hand", 0, deep, [0, 1], "sim_hand_" + cn, 3, "num=%d" % num, 24))
+    seen = set()
+    with cf.ThreadPoolExecutor(max_workers=6) as ex:
+        for cn, hs in ex.map(lambda j: mc(*j), jobs):
+            for h in hs:
+                key = cn + json.dumps(h, sort_keys=True)
+                if key not in seen:
+                    seen.add(key)
+                    hists.append((cn, h))
 
+    hists.sort(key=lambda x: (x[0], json.dumps(x[1], sort_keys=True)))
     # bind every history to a real topology, a string table and an XML variant
     reals = sorted(REAL)
     behs = []
@@ -250,15 +257,9 @@ def run(ctx, replay=None):
     rng.shuffle(behs)
 
     ctx.samples = [behs[0], behs[len(behs) // 2], behs[-1]]
-    # half of the behaviours with the libxml2 backend, half with the built-in XML code (all of them with both when thorough)
-    traces = []
-    if thorough:
-        traces.append(record(behs, "libxml", 0))
-        traces.append(record(behs, "nolibxml", 1))
-    else:
-        half = len(behs) // 2
-        traces.append(record(behs[:half], "libxml", 0))
-        traces.append(record(behs[half:], "nolibxml", 1, offset=half))
+    # half of the (shuffled) behaviours run with the libxml2 backend, half with the built-in XML code
+    half = len(behs) // 2
+    traces = [record(behs[:half], "libxml", 0), record(behs[half:], "nolibxml", 1, offset=half)]
     tf = ctx.path("trace.ndjson")
     with open(tf, "w") as fo:
         for t in traces:
